@@ -67,6 +67,109 @@ func opsString(ops []colOp) string {
 	return sb.String()
 }
 
+// bigPool: 40 items in rotating shapes, for histories that grow the collections past the sizes at which an
+// implementation might switch to an index or another algorithm
+func bigPool() []vocab.Item {
+	out := make([]vocab.Item, 0, 40)
+	for i := 0; i < 40; i++ {
+		id := vocab.IRI(fmt.Sprintf("https://example.com/big/%d", i))
+		switch i % 5 {
+		case 0:
+			out = append(out, id)
+		case 1:
+			out = append(out, &vocab.Object{ID: id, Type: vocab.NoteType})
+		case 2:
+			out = append(out, &vocab.Actor{ID: id, Type: vocab.PersonType})
+		case 3:
+			out = append(out, &vocab.Activity{ID: id, Type: vocab.LikeType, Object: vocab.IRI("https://example.com/big/liked")})
+		default:
+			out = append(out, vocab.Object{ID: id, Type: vocab.ArticleType})
+		}
+	}
+	return out
+}
+
+// runBigHistory: same oracle as runHistory over the big pool (Contains is probed for a sample of the pool after every step).
+func runBigHistory(c *Ctx, ck colKind, ops []colOp) {
+	pool := bigPool()
+	col := ck.New(nil)
+	var model []int
+	label := fmt.Sprintf("%s/big/%d ops", ck.Name, len(ops))
+	for i, o := range ops {
+		c.Pending(label)
+		bad := false
+		switch o.Op {
+		case 'A':
+			if c.Guard(ck.Name+".Append", func() { _ = col.Append(pool[o.Arg]) }) {
+				return
+			}
+			in := false
+			for _, m := range model {
+				if m == o.Arg {
+					in = true
+				}
+			}
+			if !in {
+				model = append(model, o.Arg)
+			}
+		case 'R':
+			if !ck.Remove {
+				continue
+			}
+			if c.Guard("OnItemCollection.Remove", func() {
+				_ = vocab.OnItemCollection(col, func(ic *vocab.ItemCollection) error { ic.Remove(pool[o.Arg]); return nil })
+			}) {
+				return
+			}
+			for k, m := range model {
+				if m == o.Arg {
+					model = append(append([]int{}, model[:k]...), model[k+1:]...)
+					break
+				}
+			}
+		}
+		c.Eval(1)
+		c.Count("steps", 1)
+		var got vocab.ItemCollection
+		var cnt uint
+		if c.Guard(ck.Name+".Collection", func() { got = col.Collection(); cnt = col.Count() }) {
+			return
+		}
+		if len(got) != len(model) || int(cnt) != len(model) {
+			bad = true
+		} else {
+			for k := range got {
+				if got[k] == nil || !equivIRI(got[k].GetLink(), pool[model[k]].GetLink()) {
+					bad = true
+				}
+			}
+		}
+		for probe := 0; probe < 4 && !bad; probe++ {
+			q := (o.Arg + probe*11) % len(pool)
+			in := false
+			for _, m := range model {
+				if m == q {
+					in = true
+				}
+			}
+			var has bool
+			if c.Guard(ck.Name+".Contains", func() { has = col.Contains(pool[q]) }) {
+				return
+			}
+			if has != in {
+				c.Fail(fmt.Sprintf("set|%s|%c|contains-differs", ck.Name, o.Op), fmt.Sprintf("%s step %d with %d members: Contains(pool[%d])=%v, model says %v", label, i, len(model), q, has, in), map[string]any{"history": opsString(ops[:i+1])})
+				return
+			}
+		}
+		if bad {
+			c.Fail(fmt.Sprintf("set|%s|%c|members-differ", ck.Name, o.Op), fmt.Sprintf("%s step %d: %d members (Count %d), model has %d or another order", label, i, len(got), cnt, len(model)), map[string]any{"history": opsString(ops[:i+1])})
+			return
+		}
+	}
+	c.Count("histories", 1)
+	c.Count("big-histories", 1)
+}
+
 // runHistory drives one collection and the reference model with the same operations and compares after each step.
 func runHistory(c *Ctx, ck colKind, start string, ops []colOp) {
 	pool := newPool()
@@ -231,7 +334,7 @@ func init() {
 	}
 	Register(&Prop{
 		ID:   "C13",
-		Rule: fmt.Sprintf("model: a slice of pool indices with set semantics; pool of %d items with pairwise distinct ids (IRI, object, actor, activity, value and pointer forms); exhaustive layer: all %d histories of length <= %d over {Append, Remove} x pool, each run on a rotating collection kind x start state (empty, pre-filled, slice with spare capacity); after EVERY step Collection() (sequence by id), Count() and Contains(p) for every pool member are compared with the model; random layer: histories of length 6-40 on every kind; distinct = (kind, start, history); non-trivial = history with at least one effective Remove or a repeated Append", poolN, total, L),
+		Rule: fmt.Sprintf("model: a slice of pool indices with set semantics; pool of %d items with pairwise distinct ids (IRI, object, actor, activity, value and pointer forms); exhaustive layer: all %d histories of length <= %d over {Append, Remove} x pool, each run on a rotating collection kind x start state (empty, pre-filled, slice with spare capacity); after EVERY step Collection() (sequence by id), Count() and Contains(p) for every pool member are compared with the model; random layer: histories of length 6-40 on every kind; big-pool layer: histories of 60-150 operations over a 40-item pool (collections grow to 40 members); distinct = (kind, start, history); non-trivial = history with at least one effective Remove or a repeated Append", poolN, total, L),
 		Layers: func(tier string) []Layer {
 			return []Layer{
 				{Name: "histories<=4", N: total, Exhaustive: true, Run: func(c *Ctx, idx int) {
@@ -258,6 +361,16 @@ func init() {
 					ops := decode(idx / (len(colKinds) * len(starts)))
 					c.Distinct(ck.Name+"/"+st+"/"+opsString(ops), true)
 					runHistory(c, ck, st, ops)
+				}},
+				{Name: "big-pool", N: tierN(tier, 1500, 30000), Run: func(c *Ctx, idx int) {
+					ck := colKinds[idx%len(colKinds)]
+					n := 60 + c.R.Intn(90)
+					ops := make([]colOp, n)
+					for i := range ops {
+						ops[i] = colOp{"AAAR"[c.R.Intn(4)], c.R.Intn(40)}
+					}
+					c.Distinct(ck.Name+"/big/"+opsString(ops), true)
+					runBigHistory(c, ck, ops)
 				}},
 				{Name: "random", N: tierN(tier, 20000, 500000), Run: func(c *Ctx, idx int) {
 					ck := colKinds[c.R.Intn(len(colKinds))]
